@@ -12,7 +12,7 @@ ALL = {
     "C01": core.c01, "C02": core.c02, "C03": core.c03, "C04": envmon.c04, "C05": core.c05,
     "C07": core.c07, "C08": core.c08, "C09": core.c09, "C10": core.c10, "C11": core.c11,
     "C12": core.c12, "C14": envmon.c14, "C15": envmon.c15, "C18": envmon.c18, "C19": envmon.c19,
-    "C20": envmon.c20, "C06": envmon.c06,
+    "C20": envmon.c20, "C06": envmon.c06, "C13": envmon.c13,
 }
 
 
